@@ -609,8 +609,11 @@ func (h *fsHandler) openFSFile(filePath string, mustCompress bool) (*fsFile, err
 	if fileInfo.IsDir() {
 		f.Close()
 		if mustCompress {
-			return nil, fmt.Errorf("directory with unexpected suffix found: %q. Suffix: %q",
+			// (the name of the compressed copy is taken: no copy can be saved, the file
+			// itself is served)
+			hlog.SystemLogger().Warnf("directory with unexpected suffix found: %q. Suffix: %q",
 				filePath, h.compressedFileSuffix)
+			return nil, errNoCreatePermission
 		}
 		return nil, errDirIndexRequired
 	}
